@@ -52,7 +52,10 @@ MonPost ==
     \* stored on acceptance is the checkpoint that was written, whole
     /\ (Ev.kind = "ok" /\ (~IsLimited \/ Ev.limit >= 1000) /\ InC09Domain(TRUE, st, req) /\ ~Ev.extlock =>
           /\ Check("C11", "WellFormedBodyUnderstoodHoweverDelivered", (Ev.status = 400) = (SpecVerdict(TRUE, st, req) = "OldSizeInvalid"))
-          /\ Check("C11", "TheCheckpointWrittenIsTheOneStored", Ev.status = 200 => stored'[l] = Signed(req)))
+          /\ Check("C11", "TheCheckpointWrittenIsTheOneStored", Ev.status = 200 => stored'[l] = Signed(req))
+          \* the bytes after the blank separator are the checkpoint, all of them: a validly signed note FOLLOWED BY BLANK LINES is not a note, and
+          \* an endpoint that hands on what was written gets it refused by the witness (no valid signature)
+          /\ Check("C11", "CheckpointBytesHandedOnAsWritten", req.auth = "trailingblank" => Ev.status = 403 /\ Ev.unchanged))
     \* (a 429 excuses the endpoint only where the configured rate can explain it: the runs of this part are configured with 100000 requests/s)
     \* (Ev.extlock: another connection held a read transaction on the witness' database file while the request was served - the witness may
     \*  answer with a storage error; what it must not do is answer 200 for a checkpoint that a read does not return afterwards)
